@@ -137,10 +137,23 @@ def read_all_units(tier):
                 if aname == "int" and key not in ("0", "205"):
                     continue
                 out.append(read_all_unit(key, bank, use_latch, aname, amk, device))
+    # bounded stand-in next to the loop rule (labelled bounded, never counted as proved): the same obligations with the
+    # loop unrolled for a concrete last accessible location.  It does not depend on the loop specification, so it still
+    # decides - with an input that replays - when the loop has been restructured beyond what the specification follows
+    for key, bank in banks().items():
+        for use_latch in (True, False):
+            aname, amk, device = addr_kinds()[0]
+            for last in BOUNDED_LASTS:
+                if last < 2 and bank.address != 0:
+                    continue        # the assumed unit contract: a bank >= 1 has its lock byte (location 2)
+                out.append(read_all_unit(key, bank, use_latch, aname, amk, device, bounded_last=last))
     return out
 
 
-def read_all_unit(key, bank, use_latch, aname, amk, device):
+BOUNDED_LASTS = (0, 1, 2, 3, 4, 6, 9)
+
+
+def read_all_unit(key, bank, use_latch, aname, amk, device, bounded_last=None):
     cur = {}
     start = 2 if bank.address == 0 else 3
 
@@ -194,11 +207,14 @@ def read_all_unit(key, bank, use_latch, aname, amk, device):
         cur["h"].trace = []
 
     loops = {(READ_ALL_KEY, 0): LoopSpec("read-locations", inv, havoc, ghost_init=ghost_init,
-                                            roles={"acc": ("raw_data", lambda v: isinstance(v, list))})}
+                                            roles={"acc": ("raw_data", lambda v: isinstance(v, list))},
+                                            anchor=("_ReadMemoryLocation",), avoid=("MemoryLocationNotImplemented",))}
 
     def runner(ctx, interp, fn):
         addr = amk(ctx)
         u = MemoryUnit(ctx, bank, device=device)
+        if bounded_last is not None:
+            ctx.assume(u.M[0] == bounded_last)
         M0 = list(u.M)
         h = Harness(ctx, interp, u)
         cur.clear()
@@ -230,6 +246,10 @@ def read_all_unit(key, bank, use_latch, aname, amk, device):
             if not (bank.has_latch and use_latch):
                 ctx.prove("lock-byte-untouched-without-latch", u.M[2] == M0[2])
         ctx.prove("only-memory-commands", len(u.unexpected) == 0)
+    if bounded_last is not None:
+        return Unit("C09/%s/read_all-bounded/latch=%s/last=%d" % (key, use_latch, bounded_last), "C09", None, None,
+                    use=USE + ["dali.memory.location:MemoryValue.from_list"], width=72,
+                    kind="custom", runner=runner, loops={}, max_paths=200000)
     return Unit("C09/%s/read_all/latch=%s/%s" % (key, use_latch, aname), "C09", None, None,
                 use=USE + ["dali.memory.location:MemoryValue.from_list"], width=72,
                 kind="custom", runner=runner, loops=loops, max_paths=200000)
